@@ -28,7 +28,54 @@ proof fn lemma_apply_pairs_props(m: Map<Vec<u8>, Vec<u8>>, p: Seq<(Vec<u8>, Vec<
     }
 }
 
+/// the set of the first n fields of a sequence
+spec fn fseq_set(e: Seq<Vec<u8>>, n: int) -> Set<Vec<u8>> { e.subrange(0, n).to_set() }
+proof fn lemma_fseq_set_step(e: Seq<Vec<u8>>, n: int)
+    requires 0 <= n < e.len(),
+    ensures fseq_set(e, n + 1) =~= fseq_set(e, n).insert(e[n]),
+{
+    let a = e.subrange(0, n + 1);
+    let b = e.subrange(0, n);
+    assert forall|x: Vec<u8>| a.to_set().contains(x) <==> b.to_set().insert(e[n]).contains(x) by {
+        if a.to_set().contains(x) { let i = choose|i: int| 0 <= i < a.len() && a[i] == x; if i < n { assert(b[i] == x); } else { assert(x == e[n]); } }
+        if b.to_set().contains(x) { let i = choose|i: int| 0 <= i < b.len() && b[i] == x; assert(a[i] == x); }
+        if x == e[n] { assert(a[n] == x); }
+    }
+}
 impl StorageEngine {
+// HDEL (fields taken at T = Vec<u8>; `field.as_ref()` -> as_slice, RT): exactly the named fields leave; the reply counts those that were there; a
+// hash that becomes empty ceases to exist as a key (with its deadline-index entry); the key is marked for WATCH
+//@@ unit hdel fn src/storage/engine.rs StorageEngine::hdel
+//@@   params drop "db: DatabaseIndex" "fields: &[T]" add "shard_guard: &mut DatabaseShard" "fields: &[Vec<u8>]"
+//@@   rewrite R2
+//@@   rewrite RT "field.as_ref()" "field.as_slice()"
+//@@   rewrite RFOR 0 it
+//@@   loop 0
+//@@|     invariant hash@ =~= old_hash.remove_keys(fseq_set(fields@, it.index@ as int)), old_hash.dom().finite(),
+//@@|         deleted == old_hash.dom().len() - hash@.dom().len(), deleted <= it.index@, it.index@ <= fields@.len(), fields@.len() <= usize::MAX,
+//@@   at "let mut deleted = 0;"
+//@@| let ghost old_hash = hash@;
+//@@| proof { assert(fields@.subrange(0, 0).to_set() =~= Set::<Vec<u8>>::empty()); }
+//@@   at "if hash.remove(field.as_ref()).is_some()"
+//@@| proof { lemma_fseq_set_step(fields@, it.index@ as int); vstd::set_lib::lemma_len_subset(hash@.dom(), old_hash.dom()); }
+//@@   at "if hash.is_empty()"
+//@@| proof { vstd::set_lib::lemma_len_subset(hash@.dom(), old_hash.dom()); }
+    fn hdel(&self, shard_guard: &mut DatabaseShard, key: Key, fields: &[Vec<u8>]) -> (r: Result<usize>)
+        ensures
+            step_ok(eff(*old(shard_guard), key), sv(*final(shard_guard)), key),
+            coll_ok(eff(*old(shard_guard), key)) ==> coll_ok(sv(*final(shard_guard))),
+            holds_non_hash(eff(*old(shard_guard), key), key) ==> r is Err && unchanged(eff(*old(shard_guard), key), sv(*final(shard_guard))),
+            !eff(*old(shard_guard), key).data.contains_key(key) ==> r == Ok::<usize, FerrousError>(0) && unchanged(eff(*old(shard_guard), key), sv(*final(shard_guard))),
+            hash_at(eff(*old(shard_guard), key), key) matches Some(m) ==> ({
+                let left = m.remove_keys(fseq_set(fields@, fields@.len() as int));
+                &&& r == Ok::<usize, FerrousError>((m.dom().len() - left.dom().len()) as usize)
+                &&& (left.dom().len() == 0 ==> !sv(*final(shard_guard)).data.contains_key(key) && !sv(*final(shard_guard)).exp.contains_key(key))
+                &&& (left.dom().len() != 0 ==> hash_at(sv(*final(shard_guard)), key) == Some(left)
+                        && sv(*final(shard_guard)).data[key].metadata == eff(*old(shard_guard), key).data[key].metadata)
+            }),
+//@@ body
+//@@ end
+
 //@@ unit hset fn src/storage/engine.rs StorageEngine::hset
 //@@   params drop "db: DatabaseIndex" add "shard_guard: &mut DatabaseShard"
 //@@   rewrite R2
